@@ -359,13 +359,16 @@ namespace c19
 #endif
         long vg_prev = C19_VG_ERRORS();
         m.begin(fill);
-        std::vector<Step> all(steps);
+        // scratch buffers are reused across histories (millions of them per process)
+        static std::vector<Step> all;
+        static std::vector<std::pair<std::string, std::string>> found;
+        static std::string ls, ms, whole;
+        all.assign(steps.begin(), steps.end());
+        found.clear();
         for (int s = 0; s < M::NS; s++) all.push_back(Step{0, s, 0});
         long excess_prev = 0, objdiff_prev = 0, ref_prev = 0, capv_prev = 0, bnd_prev = 0;
         long ev_prev[4] = {0, 0, 0, 0};
         long al_prev[3] = {0, 0, 0};
-        std::vector<std::pair<std::string, std::string>> found;
-        std::string ls, ms, whole;
         bool aborted = false;
         agg.hist++;
         // A constructing step on a slot that still holds an object is preceded by a synthetic destroy step
